@@ -50,6 +50,15 @@ C = 'giscanner/cachestore.py'
 T = 'giscanner/transformer.py'
 mut('C18', 'D1-reintroduced', C, "if not self._cache_is_valid(fd.fileno(), filename):", "if not self._cache_is_valid(store_filename, filename):")
 mut('C18', 'D2-reintroduced', C, "if e.errno in (errno.EACCES, errno.ENOENT):\n                self._remove_filename(tmp_filename)", "if e.errno == errno.EACCES:\n                self._remove_filename(tmp_filename)")
+mut('C18', 'D3-reintroduced', T, "                self._cachestore.store(filename, parser, mtime_ns)", "                self._cachestore.store(filename, parser)")
+mut('C18', 'D3-mtime-read-after-parse', T, "            mtime_ns = os.stat(filename).st_mtime_ns\n            parser = GIRParser(types_only=not self._passthrough_mode)\n            parser.parse(filename)",
+    "            parser = GIRParser(types_only=not self._passthrough_mode)\n            parser.parse(filename)\n            mtime_ns = os.stat(filename).st_mtime_ns")
+mut('C18', 'D4-reintroduced-tmp-in-tmpdir', C, "            tmp_fd, tmp_filename = tempfile.mkstemp(prefix='g-ir-scanner-cache-',\n                                                    dir=self._directory)",
+    "            tmp_fd, tmp_filename = tempfile.mkstemp(prefix='g-ir-scanner-cache-')")
+mut('C18', 'utime-after-move', C, "            if mtime_ns is not None:\n                # Date the entry like the file it was parsed from, so that a\n                # later change of that file always makes the entry stale.\n                os.utime(tmp_filename, ns=(mtime_ns, mtime_ns))\n", "",
+    note='two-site: the time stamp is set on the entry after the move instead of on the temp file before it')
+M[-1]['also'] = [(C, "        try:\n            shutil.move(tmp_filename, store_filename)\n        except", "        try:\n            shutil.move(tmp_filename, store_filename)\n            if mtime_ns is not None:\n                os.utime(store_filename, ns=(mtime_ns, mtime_ns))\n        except")]
+mut('C18', 'purge-removes-inflight-temp-not-tolerated', C, "            if e.errno in (errno.ENOSPC, errno.ENOENT):\n                self._remove_filename(tmp_filename)", "            if e.errno == errno.ENOSPC:\n                self._remove_filename(tmp_filename)")
 mut('C18', 'freshness-removed-in-load', C, "            if not self._cache_is_valid(fd.fileno(), filename):\n                return None\n", "")
 mut('C18', 'freshness-inverted', C, "        return store_mtime >= os.stat(filename).st_mtime", "        return store_mtime <= os.stat(filename).st_mtime")
 mut('C18', 'unpickle-except-narrowed', C, "            except Exception:\n                # Broken cache entry, remove it", "            except EOFError:\n                # Broken cache entry, remove it")
@@ -61,10 +70,10 @@ mut('C18', 'versionhash-first-source-only', C, "    mtimes = (str(os.stat(source
 mut('C18', 'filename-keyed-on-basename', C, "hexdigest = hashlib.sha1(filename.encode('utf-8')).hexdigest()", "hexdigest = hashlib.sha1(os.path.basename(filename).encode('utf-8')).hexdigest()")
 mut('C18', 'enoent-not-tolerated-in-load', C, "            if e.errno == errno.ENOENT:\n                return None\n            else:\n                raise\n\n        with fd:", "            raise\n\n        with fd:")
 mut('C18', 'enoent-not-tolerated-in-remove', C, "            if e.errno in (errno.EACCES, errno.ENOENT):\n                return\n            else:\n                raise", "            if e.errno in (errno.EACCES,):\n                return\n            else:\n                raise")
-mut('C18', 'store-wrong-path', T, "                self._cachestore.store(filename, parser)", "                self._cachestore.store(os.path.join(os.path.dirname(os.path.dirname(filename)), 'a', os.path.basename(filename)), parser)")
+mut('C18', 'store-wrong-path', T, "                self._cachestore.store(filename, parser, mtime_ns)", "                self._cachestore.store(os.path.join(os.path.dirname(os.path.dirname(filename)), 'a', os.path.basename(filename)), parser, mtime_ns)")
 mut('C18', 'store-in-place-no-temp', C, "        try:\n            shutil.move(tmp_filename, store_filename)", "        try:\n            shutil.copyfile(tmp_filename, store_filename); os.unlink(tmp_filename)",
-    note='writes the entry in place: truncated entries are detected by pickle; not a violation of C18 by itself (DESIGN §3.9) -- but D2-like ENOENT is handled, so must NOT be flagged', expect=0)
-mut('C18', 'never-store', T, "            if self._cachestore is not None:\n                self._cachestore.store(filename, parser)", "            pass",
+    note='writes the entry in place: since the midmod family exists this is D4 again (readers validate a copy that carries the time of the copy; two writers share an inode)')
+mut('C18', 'never-store', T, "            if self._cachestore is not None:\n                self._cachestore.store(filename, parser, mtime_ns)", "            pass",
     note='a cache that never stores satisfies C18; the harness notices load_hit == 0 and exits 2', expect=2)
 mut('C18', 'valid-uses-gt', C, "        return store_mtime >= os.stat(filename).st_mtime", "        return store_mtime > os.stat(filename).st_mtime",
     note='stricter freshness: still correct; must NOT be flagged', expect=0)
@@ -94,6 +103,19 @@ mut('C16', 'tagns-struct-first-loses-ctype', T, "                compound.name =
 mut('C16', 'tagns-typedef-first-loses-fields', T, "        # Fields may need to be parsed in either of the above cases because the\n        # Record can be created with a typedef prior to the struct definition.\n        self._parse_fields(symbol, compound)",
     "        if symbol.ident not in self._tag_ns:\n            self._parse_fields(symbol, compound)")
 mut('C16', 'main-position-prefers-typedef-by-set-order', A, "            if position.is_typedef:\n                res = position\n            else:\n                return position", "            return position")
+
+# ---- correct refactors of the cache code: must NOT be flagged (expect 0) --------------------------
+mut('C18', 'ok-os-replace-instead-of-move', C, "            shutil.move(tmp_filename, store_filename)\n        except (IOError, OSError) as e:\n            # Permission denied, or", "            os.replace(tmp_filename, store_filename)\n        except (IOError, OSError) as e:\n            # Permission denied, or", expect=0,
+    note='same-directory temp file, so a plain atomic replace is equivalent')
+mut('C18', 'ok-fsync-before-move', C, "                pickle.dump(data, tmp_file)\n", "                pickle.dump(data, tmp_file)\n                tmp_file.flush()\n                os.fsync(tmp_file.fileno())\n", expect=0)
+mut('C18', 'ok-clean-with-scandir', C, "        for filename in os.listdir(self._directory):\n            if filename == _CACHE_VERSION_FILENAME:\n                continue\n            self._remove_filename(os.path.join(self._directory, filename))",
+    "        with os.scandir(self._directory) as it:\n            entries = [e.name for e in it]\n        for filename in entries:\n            if filename == _CACHE_VERSION_FILENAME:\n                continue\n            self._remove_filename(os.path.join(self._directory, filename))", expect=0)
+mut('C18', 'ok-versionhash-sorted-sources', C, "    sources.append(sys.argv[0])", "    sources.sort()\n    sources.append(sys.argv[0])", expect=0)
+mut('C18', 'ok-load-fstat-directly', C, "            if not self._cache_is_valid(fd.fileno(), filename):", "            if os.fstat(fd.fileno()).st_mtime < os.stat(filename).st_mtime:", expect=0)
+mut('C18', 'ok-always-restore', C, "        if self._cache_is_valid(store_filename, filename):\n            return None\n\n        # Create", "        # Create", expect=0,
+    note='always re-storing is wasteful but never serves stale data')
+mut('C18', 'ok-namedtemporaryfile', C, "            tmp_fd, tmp_filename = tempfile.mkstemp(prefix='g-ir-scanner-cache-',\n                                                    dir=self._directory)",
+    "            tmp_obj = tempfile.NamedTemporaryFile(prefix='g-ir-scanner-cache-', dir=self._directory, delete=False)\n            tmp_obj.close()\n            tmp_fd, tmp_filename = os.open(tmp_obj.name, os.O_WRONLY), tmp_obj.name", expect=0)
 
 
 def run_one(m, extra_env=None):
